@@ -2,6 +2,7 @@
 correspondence against server/store/types (ParseAcs, MarshalText, Delta,
 ApplyDelta, ApplyMutation) through harness/ext."""
 import itertools
+import vlib
 from props import purelib
 
 ALPHA = "JrWNn+-x?"
@@ -120,6 +121,15 @@ def nontrivial(case, out):
 
 
 def run(ctx):
+    # layer 2 (change notifications and the parties tracking them) adds its violations and coverage first;
+    # layer 1 (the AccessMode algebra) then runs and writes the verdict for both
+    from props import c05notify
+    if not c05notify.is_l1_replay(ctx):
+        c05notify.run_layer2(ctx)
+    if c05notify.is_l2_replay(ctx):
+        ctx.coq_props()
+        vlib.proof_violation(ctx)
+        ctx.finish()
     purelib.run_pure(
         ctx, "c05", gen_cases, monitors, neighbours, nontrivial,
         rule="all 258 modes through MarshalText; all 256x256 (old,new) pairs through Delta+ApplyDelta; every string of length <=4 (quick) / <=5 (thorough) over {J,r,W,N,n,+,-,x,?} and seeded random mostly-valid strings of length 1..14 with a 15% junk insertion, each through ParseAcs (also upper/lower-cased), UnmarshalText, ApplyMutation, ApplyDelta; non-trivial = accepted by the implementation and non-empty",
